@@ -123,6 +123,11 @@ class Recorder:
                 return ["U", "newkind-" + vs(h)]
             return h
 
+        def stale(st, h):
+            """the hash of past data (changed or deleted block) that no known content has: left over from the previous hash
+            function after the migration of its stripe; it can never match anything again"""
+            return "STALE" if st in ("CHG", "DEL") and h.startswith("U") else h
+
         for d in self.D:
             cf = {}
             dl = ["NONE"] * bmax
@@ -130,9 +135,9 @@ class Recorder:
                 for name, f in c["files"][d].items():
                     self.names.add(name)
                     cf[name] = {"sz": f["sz"], "mt": f["mt"],
-                                "bl": [{"pos": p, "st": s, "h": self.hs(kind_ok(p, h))} for p, s, h in f["bl"]]}
+                                "bl": [{"pos": p, "st": s, "h": stale(s, self.hs(kind_ok(p, h)))} for p, s, h in f["bl"]]}
                 for p, h in c["del"][d].items():
-                    dl[int(p)] = self.hs(kind_ok(int(p), h))
+                    dl[int(p)] = stale("DEL", self.hs(kind_ok(int(p), h)))
             out["cf"][d] = cf
             out["del"][d] = dl
         if c:
@@ -311,8 +316,21 @@ class Recorder:
     @staticmethod
     def filter_match(patterns, name):
         """-f patterns without glob characters: NAME (base name of a file), /PATH (whole path), DIR/ (any directory on the path)"""
+        import re as _re
         parts = name.split("/")
+
+        def glob(pat, text):
+            # fnmatch with FNM_PATHNAME: * and ? never match a slash
+            rx = "".join("[^/]*" if c == "*" else "[^/]" if c == "?" else _re.escape(c) for c in pat)
+            return _re.fullmatch(rx, text) is not None
         for p in patterns:
+            if "*" in p or "?" in p:
+                if p.startswith("/"):
+                    if glob(p[1:], name):
+                        return True
+                elif glob(p, parts[-1]):
+                    return True
+                continue
             if p.endswith("/"):
                 if p[:-1] in parts[:-1]:
                     return True
@@ -448,7 +466,9 @@ class Recorder:
 
     def scrub(self, plan="full", *flags, rules=None):
         present = self.present_levels()
-        r = self.a.run("scrub", "-p", plan, *flags, rules=rules)
+        # pct100: the percentage plan with everything selected (-p 100 -o 0)
+        pargs = ["-p", "100", "-o", "0"] if plan == "pct100" else ["-p", plan]
+        r = self.a.run("scrub", *pargs, *flags, rules=rules)
         self.last_result = r
         de, pe = self._derr(r)
         out = {"exit": self._exit(r), "rc": r.rc, "derr": [list(x) for x in de], "perr": [list(x) for x in pe]}
